@@ -67,49 +67,34 @@ fn window(crystal: &CrystalType) -> (f64, f64) {
   }
 }
 
-fn history(rng: &mut Rng, id: usize, crystals: &[(String, CrystalType)]) {
-  let pols = [PolarizationType::Ordinary, PolarizationType::Extraordinary];
-  let (cid, crystal) = rng.pick(crystals).clone();
-  let (wlo, whi) = window(&crystal);
-  let setup = setup_of(&crystal, rng.range(0.3, 1.4), rng.range(0.0, 2.0 * PI));
-  let pol = *rng.pick(&pols);
-  let (phi0, theta0) = (angle_arg(rng), angle_arg(rng));
-  let lambda0 = rng.log_range(wlo, whi);
-  let waist0 = rng.log_range(1e-6, 1e-2);
+fn pol_of(x: f64) -> PolarizationType {
+  if x == 0.0 { PolarizationType::Ordinary } else { PolarizationType::Extraordinary }
+}
+
+/// run one recorded history: constructor arguments, then the ops in order; every intermediate state is printed
+#[allow(clippy::too_many_arguments)]
+fn execute(id: usize, cid: &str, setup: &CrystalSetup, pol: PolarizationType, phi0: f64, theta0: f64, lambda0: f64, waist0: f64,
+           ops: &[(String, Vec<f64>)]) {
   let mut beam = Beam::new(pol, phi0 * RAD, theta0 * RAD, lambda0 * M, waist0 * M);
   let mut steps: Vec<Value> = vec![];
-  let n = 1 + rng.below(50);
   let mut panicked: Option<String> = None;
-  for _ in 0..n {
-    let which = rng.below(11);
-    let (name, args): (&str, Vec<f64>) = match which {
-      0 => ("set_phi", vec![angle_arg(rng)]),
-      1 => ("set_theta_internal", vec![angle_arg(rng)]),
-      2 => ("set_angles", vec![angle_arg(rng), angle_arg(rng)]),
-      3 => ("set_theta_external", vec![rng.range(-80.0, 80.0) * PI / 180.0]),
-      4 => ("set_vacuum_wavelength", vec![rng.log_range(wlo, whi)]),
-      5 => ("set_frequency", vec![2.0 * PI * 299792458.0 / rng.log_range(wlo, whi)]),
-      6 => ("set_polarization", vec![rng.below(2) as f64]),
-      7 => ("set_waist", vec![rng.log_range(1e-7, 1e-1)]),
-      8 => ("with_polarization", vec![rng.below(2) as f64]),
-      9 => ("into_pump", vec![]),
-      _ => ("set_phi", vec![angle_arg(rng)]),
-    };
+  for (name, args) in ops.iter() {
     let before = beam.clone();
     let a = args.clone();
     let st = setup.clone();
+    let nm = name.clone();
     let r = guarded(move || {
       let mut b = before;
-      match name {
+      match nm.as_str() {
         "set_phi" => { b.set_phi(a[0] * RAD); }
         "set_theta_internal" => { b.set_theta_internal(a[0] * RAD); }
         "set_angles" => { b.set_angles(a[0] * RAD, a[1] * RAD); }
         "set_theta_external" => { b.set_theta_external(a[0] * RAD, &st); }
         "set_vacuum_wavelength" => { b.set_vacuum_wavelength(a[0] * M); }
         "set_frequency" => { b.set_frequency(a[0] * RAD / S); }
-        "set_polarization" => { b.set_polarization(if a[0] == 0.0 { PolarizationType::Ordinary } else { PolarizationType::Extraordinary }); }
+        "set_polarization" => { b.set_polarization(pol_of(a[0])); }
         "set_waist" => { b.set_waist(a[0] * M); }
-        "with_polarization" => { b = b.with_polarization(if a[0] == 0.0 { PolarizationType::Ordinary } else { PolarizationType::Extraordinary }); }
+        "with_polarization" => { b = b.with_polarization(pol_of(a[0])); }
         "into_pump" => { b = PumpBeam::from(b).as_beam(); }
         _ => {}
       }
@@ -125,10 +110,10 @@ fn history(rng: &mut Rng, id: usize, crystals: &[(String, CrystalType)]) {
             move || *(Beam::calc_internal_theta_from_external(&bb, a0.abs() * RAD, &st) / RAD) });
           extra = json!({"snell_internal": th.ok().map(fx)});
         }
-        steps.push(json!({"op": name, "args": fxs(&args), "after": state(&beam), "extra": extra}));
+        steps.push(json!({"op": name, "args": fxs(args), "after": state(&beam), "extra": extra}));
       }
       Err(msg) => {
-        steps.push(json!({"op": name, "args": fxs(&args), "panic": msg}));
+        steps.push(json!({"op": name, "args": fxs(args), "panic": msg}));
         panicked = Some(name.to_string());
         break;
       }
@@ -142,14 +127,79 @@ fn history(rng: &mut Rng, id: usize, crystals: &[(String, CrystalType)]) {
   }));
 }
 
+fn history(rng: &mut Rng, id: usize, crystals: &[(String, CrystalType)]) {
+  let pols = [PolarizationType::Ordinary, PolarizationType::Extraordinary];
+  let (cid, crystal) = rng.pick(crystals).clone();
+  let (wlo, whi) = window(&crystal);
+  let setup = setup_of(&crystal, rng.range(0.3, 1.4), rng.range(0.0, 2.0 * PI));
+  let pol = *rng.pick(&pols);
+  let (phi0, theta0) = (angle_arg(rng), angle_arg(rng));
+  let lambda0 = rng.log_range(wlo, whi);
+  let waist0 = rng.log_range(1e-6, 1e-2);
+  let n = 1 + rng.below(50);
+  let mut ops: Vec<(String, Vec<f64>)> = vec![];
+  for _ in 0..n {
+    let which = rng.below(11);
+    let (name, args): (&str, Vec<f64>) = match which {
+      0 => ("set_phi", vec![angle_arg(rng)]),
+      1 => ("set_theta_internal", vec![angle_arg(rng)]),
+      2 => ("set_angles", vec![angle_arg(rng), angle_arg(rng)]),
+      3 => ("set_theta_external", vec![rng.range(-80.0, 80.0) * PI / 180.0]),
+      4 => ("set_vacuum_wavelength", vec![rng.log_range(wlo, whi)]),
+      5 => ("set_frequency", vec![2.0 * PI * 299792458.0 / rng.log_range(wlo, whi)]),
+      6 => ("set_polarization", vec![rng.below(2) as f64]),
+      7 => ("set_waist", vec![rng.log_range(1e-7, 1e-1)]),
+      8 => ("with_polarization", vec![rng.below(2) as f64]),
+      9 => ("into_pump", vec![]),
+      _ => ("set_phi", vec![angle_arg(rng)]),
+    };
+    ops.push((name.to_string(), args));
+  }
+  execute(id, &cid, &setup, pol, phi0, theta0, lambda0, waist0, &ops);
+}
+
+fn hexf(v: &Value) -> f64 {
+  f64::from_bits(u64::from_str_radix(v.as_str().unwrap_or("0x0").trim_start_matches("0x"), 16).unwrap_or(0))
+}
+
+/// vharness c13 replay '<json>': {"kind": "hist", crystal, ct, cp, init: {pol, phi, theta, lambda, waist}, ops: [{op, args}]}
+/// or {"kind": "snell", crystal, pol, ct, cp, lambda, bphi, te}   (floats as 0x… bit patterns)
+fn replay(js: &str, crystals: &[(String, CrystalType)]) {
+  let v: Value = match serde_json::from_str(js) {
+    Ok(v) => v,
+    Err(_) => return,
+  };
+  let cid = v["crystal"].as_str().unwrap_or("");
+  let crystal = match crystals.iter().find(|c| c.0 == cid) {
+    Some(c) => c.1.clone(),
+    None => return,
+  };
+  let pol_str = |x: &Value| if x.as_str() == Some("o") { PolarizationType::Ordinary } else { PolarizationType::Extraordinary };
+  if v["kind"] == "hist" {
+    let setup = setup_of(&crystal, hexf(&v["ct"]), hexf(&v["cp"]));
+    let init = &v["init"];
+    let ops: Vec<(String, Vec<f64>)> = v["ops"].as_array().cloned().unwrap_or_default().iter()
+      .map(|o| (o["op"].as_str().unwrap_or("").to_string(), o["args"].as_array().cloned().unwrap_or_default().iter().map(hexf).collect()))
+      .collect();
+    execute(0, cid, &setup, pol_str(&init["pol"]), hexf(&init["phi"]), hexf(&init["theta"]), hexf(&init["lambda"]), hexf(&init["waist"]), &ops);
+  } else if v["kind"] == "snell" {
+    snell_at(cid, &crystal, pol_str(&v["pol"]), hexf(&v["ct"]), hexf(&v["cp"]), hexf(&v["lambda"]), hexf(&v["te"]), hexf(&v["bphi"]), "replay");
+  }
+}
+
 fn snell(rng: &mut Rng, cid: &str, crystal: &CrystalType, pol: PolarizationType, theta_e_deg: f64, bphi: f64, gen: &str) {
   let ct = rng.range(0.35, 1.45);
   let cp = rng.range(0.0, 2.0 * PI);
-  let setup = setup_of(crystal, ct, cp);
   let (wlo, whi) = window(crystal);
   let lambda = rng.range(wlo, whi);
+  snell_at(cid, crystal, pol, ct, cp, lambda, theta_e_deg * PI / 180.0, bphi, gen);
+}
+
+#[allow(clippy::too_many_arguments)]
+fn snell_at(cid: &str, crystal: &CrystalType, pol: PolarizationType, ct: f64, cp: f64, lambda: f64, te: f64, bphi: f64, gen: &str) {
+  let setup = setup_of(crystal, ct, cp);
+  let theta_e_deg = te * 180.0 / PI;
   let beam0 = Beam::new(pol, bphi * RAD, 0.1 * RAD, lambda * M, 100e-6 * M);
-  let te = theta_e_deg * PI / 180.0;
   let st = setup.clone();
   let r = guarded(move || {
     let mut b = beam0;
@@ -183,6 +233,12 @@ pub fn run(args: &[String]) {
     .iter()
     .filter_map(|m| CrystalType::from_string(m.id).ok().map(|c| (m.id.to_string(), c)))
     .collect();
+  if args.first().map(|s| s == "replay").unwrap_or(false) {
+    if let Some(js) = args.get(1) {
+      replay(js, &crystals);
+    }
+    return;
+  }
   for id in 0..n_hist {
     history(&mut rng, id, &crystals);
   }
@@ -198,6 +254,23 @@ pub fn run(args: &[String]) {
         let te = rng.range(0.0, 80.0);
         let bphi = rng.range(0.0, 2.0 * PI);
         snell(&mut rng, cid, crystal, pol, te, bphi, "rand");
+      }
+      // the refracted beam runs (almost) along an optic axis: crystal tilt = internal angle, azimuth pi (uniaxial crystals;
+      // for biaxial ones this is just another orientation)
+      for k in 0..1.max(n_snell / 3) {
+        let (wlo, whi) = window(crystal);
+        let lambda = rng.range(wlo, whi);
+        let ti = rng.range(0.05, 0.45);
+        let cp = rng.range(0.0, 2.0 * PI);
+        let offs = [0.0, 1e-9, 1e-7, 1e-5, 1e-3][k % 5];
+        let st0 = setup_of(crystal, ti, cp);
+        let b0 = Beam::new(pol, PI * RAD, ti * RAD, lambda * M, 100e-6 * M);
+        let n0 = *b0.refractive_index(b0.frequency(), &setup_of(crystal, ti + 0.01, cp));
+        let _ = st0;
+        let te = (n0 * ti.sin()).min(0.98).asin();
+        if te <= 80.0 * PI / 180.0 {
+          snell_at(cid, crystal, pol, ti + offs, cp, lambda, te, PI, "onaxis");
+        }
       }
       // small external angles (log-uniform)
       for _ in 0..1.max(n_snell / 3) {
